@@ -4,11 +4,14 @@ pub mod c02;
 pub mod c03;
 pub mod c04;
 pub mod c05;
+pub mod c06;
+pub mod c07;
+pub mod c09;
 pub mod c13;
 pub mod common;
 
 use crate::runner::CheckDef;
 
 pub fn all() -> Vec<CheckDef> {
-    vec![c01::def(), c02::def(), c03::def(), c04::def(), c05::def(), c13::def()]
+    vec![c01::def(), c02::def(), c03::def(), c04::def(), c05::def(), c06::def(), c07::def(), c09::def(), c13::def()]
 }
